@@ -164,6 +164,7 @@ def record_run(conf: dict, n_total=32, seed=0, label="", posterior_flags=None, s
         sampler, c = build_sampler(conf, rec, out_dir=out_dir)
         rec.attach(sampler)
     rec.requested_n_total = int(n_total)
+    rec.expect_final_save = save_every is not None
     if label:
         rec.label = label
     with psrun.hooks_on(rec):
